@@ -24,7 +24,7 @@ import re
 
 KEYWORDS = ('define', 'ghost', 'assume', 'func', 'mode', 'requires', 'ensures', 'let', 'calls', 'modifies', 'loop',
             'effect', 'serves', 'lp', 'at', 'lemma', 'trusted', 'iterates', 'spawns', 'note', 'inline', 'twin',
-            'pure', 'opaque', 'check', 'havoc', 'frame', 'reenters')
+            'pure', 'opaque', 'check', 'havoc', 'frame', 'reenters', 'oncall')
 
 TOK = re.compile(r'\s*(?:(\d+[a-zA-Z_0-9]*)|([A-Za-z_$][A-Za-z_0-9$]*)|(==>|<==>|==|!=|<=|>=|&&|\|\||<<|>>|&\^|::|->|[-+*/%&|^!<>()\[\]{}.,:=?])|("(?:[^"\\]|\\.)*"))')
 
@@ -86,6 +86,14 @@ class P:
 
     def expr(self):
         p = self.peek()
+        if p == ('id', 'lambda'):
+            self.next()
+            v = self.expect('id')[1]
+            self.expect('op', ':')
+            srt = self.sortname()
+            self.expect('op', '::')
+            body = self.expr()
+            return ('lambda', v, srt, body)
         if p == ('id', 'forall') or p == ('id', 'exists'):
             self.next()
             vs = []
@@ -416,10 +424,25 @@ def parse_file(lines, fname, pkg, sf=None):
                 if rest.strip():
                     c.expr = parse_expr(rest)
                     c.etext = rest
+            elif kind == 'oncall':
+                m = re.match(r'^(\w+)\s*:\s*(.*)$', t)
+                c.extra['fn'] = m.group(1)
+                rest = m.group(2)
+                mm = TAGS.match(rest)
+                if mm:
+                    c.tags = [x.strip() for x in mm.group(1).split(',') if x.strip()]
+                    rest = rest[mm.end():]
+                mm = LABEL.match(rest)
+                if mm:
+                    c.label = mm.group(1)
+                    rest = rest[mm.end():]
+                c.expr = parse_expr(rest)
+                c.etext = rest
             elif kind == 'modifies':
                 c.extra['items'] = [x.strip() for x in t.split(',') if x.strip()]
             elif kind in ('mode', 'effect', 'serves', 'lp', 'trusted', 'note', 'inline', 'twin', 'pure', 'opaque',
                           'iterates', 'spawns', 'havoc', 'frame', 'reenters'):
                 c.extra['arg'] = t.strip()
+            c.ordinal = sum(1 for x in cur.clauses if x.kind == c.kind)
             cur.clauses.append(c)
     return sf
